@@ -95,8 +95,15 @@ func New(t *tape.Tape, o Options) *Workspace {
 			m.CommitID[8] = (m.CommitID[8] & 0x3f) | 0x80
 		}
 		nd := t.Range("ws.ndirs", 1, 3)
+		// sibling directories whose names string-extend each other (v1, v1beta1) separate
+		// path-wise from string-wise prefix handling of --path values
+		versions := []string{"v1", "v1beta1", "v1beta"}
 		for d := 0; d < nd; d++ {
-			m.Dirs = append(m.Dirs, fmt.Sprintf("w%d/d%d/v1", i, d))
+			if t.Draw("ws.sibling", 2) == 1 && d > 0 {
+				m.Dirs = append(m.Dirs, fmt.Sprintf("w%d/d0/%s", i, versions[d%len(versions)]))
+			} else {
+				m.Dirs = append(m.Dirs, fmt.Sprintf("w%d/d%d/v1", i, d))
+			}
 		}
 		ws.Modules = append(ws.Modules, m)
 	}
